@@ -242,10 +242,24 @@ def run(rep, tier, seed, replay=None):
     # circular local Table D (direct and indirect): use must be refused, not recursed on
     if not replay:
         ld = os.path.join(vlib.scratch(), "local_d_circular.txt")
-        open(ld, "w").write("360001 001001 360002\n360002 001002 360003\n360003 001003 360001\n360004 001001 360004\n360005 001001 001002\n")
-        lines = ["TABLES - %s" % ld, "T 4 1 360005", "T 4 1 360001", "T 4 1 360004", "T 4 3 101002 360002 1001"]
-        outs = ctx.run_c(lines)
-        if len(outs) < len(lines):
+        open(ld, "w").write("360001 001001 360002\n360002 001002 360003\n360003 001003 360001\n360004 001001 360004\n360005 001001 001002\n"
+                            # cycles with a fan-out of two or more per level: refusal must not cost fan-out^depth steps
+                            "360006 001001 101002 360006\n360007 360008 360008\n360008 360007 360007\n360009 360009 360009 001001\n360010 001001 102003 360010 001002\n")
+        lines = ["TABLES - %s" % ld, "T 4 1 360005", "T 4 1 360001", "T 4 1 360004", "T 4 3 101002 360002 1001",
+                 "T 4 1 360006", "T 4 1 360007", "T 4 1 360009", "T 4 1 360010", "T 4 3 101003 360008 1001"]
+        import subprocess
+        try:
+            outs = ctx.run_c(lines, timeout=120)
+        except subprocess.TimeoutExpired as te:
+            got = (te.stdout or b"").decode("latin-1").split("\n")
+            got = [l for l in got if l]
+            outs = None
+            rep.violation("C10: using a circular local Table D sequence does not return (no answer within 120 s; the other circular cases take milliseconds): %s" % lines[min(len(got), len(lines) - 1)],
+                          {"kind": "expand", "case": lines[min(len(got), len(lines) - 1)], "local_table_d": open(ld).read()})
+            ctx = codec.Ctx()
+        if outs is None:
+            pass
+        elif len(outs) < len(lines):
             rep.violation("C10: using a circular local Table D sequence crashes the library (%s): %s" % (lines[len(outs)], ctx.sanitizer_summary()[:200]),
                           {"kind": "expand", "case": lines[len(outs)], "local_table_d": open(ld).read()})
         else:
